@@ -10,6 +10,7 @@ import (
 	"fmt"
 	"io"
 	"os"
+	"path/filepath"
 	"sync"
 	"time"
 )
@@ -360,6 +361,14 @@ func FsOK(i int) bool      { return false }
 // WalkEntry registers a candidate directory entry for the engine's
 // filepath.Walk stub (natively a no-op: the real file system is walked).
 func WalkEntry(path string, isDir bool) {}
+
+// FsFile registers the content of a file for the engine's os.ReadFile stub
+// (a read of exactly this path succeeds and returns a copy of data); natively
+// the file is really written.
+func FsFile(path string, data []byte) {
+	_ = os.MkdirAll(filepath.Dir(path), 0o700)
+	_ = os.WriteFile(path, data, 0o600)
+}
 
 // FsFaults bounds how many file-system calls may fail on a path
 // (-1 = any number, 0 = none). Engine only.
